@@ -101,6 +101,13 @@ int cmdResave(int argc, char** argv) {
 						ed->stringData.get() = "v";
 						nif.AssignExtraData(nif.GetRootNode(), std::move(ed));
 					}
+					// match groups given through the API (legacy triangle data)
+					if (auto td = dynamic_cast<NiTriShapeData*>(nif.GetShapes()[0]->GetGeomData())) {
+						MatchGroup mg;
+						mg.count = 2;
+						mg.matches = {0, 1};
+						td->SetMatchGroups({mg});
+					}
 					nif.DeleteNode("B");
 					auto& hd = nif.GetHeader();
 					hd.DeleteBlock(nif.GetRootNode()->extraDataRefs.GetBlockRef(0));
